@@ -80,6 +80,20 @@ class CChained(CPlain):
     pass
 
 
+class CFalsy(Exception):
+    """An aggregate error whose truth value is False (no sub-errors recorded yet) and whose class needs arguments:
+    "if not exc" is not "exc is None"."""
+
+    def __init__(self, a, b):
+        super().__init__(a, b)
+
+    def __bool__(self):
+        return False
+
+    def __len__(self):
+        return 0
+
+
 class CBase(BaseException):
     pass
 
@@ -129,7 +143,7 @@ SITE_FROM = _site(_raise_from)
 SITE_PRE = _site(_raise_pre)
 SITE_FRESH = _site(_raise_fresh)
 
-SRE_CLASSES = ['plain', 'need', 'chained', 'pre', 'base', 'runtime', 'notimpl']
+SRE_CLASSES = ['plain', 'need', 'chained', 'pre', 'base', 'runtime', 'notimpl', 'falsy']
 ORIG_MSG = 'orig-exc'
 
 
@@ -149,6 +163,8 @@ def make_exc(cls, msg=ORIG_MSG):
         return CRuntime(msg, 7), SITE_ORIG          # an ordinary exception to be re-raised
     if cls == 'notimpl':
         return NotImplementedError(msg), SITE_ORIG
+    if cls == 'falsy':
+        return CFalsy(msg, 0), SITE_ORIG
     if cls == 'key':
         return KeyError(msg), SITE_ORIG
     if cls == 'assertion':
@@ -433,7 +449,8 @@ PREDS = ['true', 'false', 'truthy-str', 'falsy-none', 'falsy-zero', 'isinstance-
 # exception specs: (class, message, code attribute)
 FILTER_EXCS = [('plain', 'p', None), ('plain', 'This is a test', 404), ('need', 'test', 500),
                ('chained', 'c', 404), ('pre', 'pre test', None), ('base', 'b', 404),
-               ('key', 'k', 500), ('assertion', 'This is a test', None), ('need', 'n', 404)]
+               ('key', 'k', 500), ('assertion', 'This is a test', None), ('need', 'n', 404),
+               ('falsy', 'f test', 404), ('falsy', 'f', None)]
 HOLDER_CODES = [[], [404], [404, 500]]
 
 
@@ -697,7 +714,7 @@ def _eval_filter(ctx, case):
 RPOE_STATES = ['file', 'absent', 'created-in-body', 'symlink', 'odd-name', 'dangling-symlink', 'symlink-to-dir']
 RPOE_REMOVES = ['default', 'custom-unlink', 'custom-raises', 'custom-raises-after-unlink', 'custom-reentrant']
 RPOE_BODIES = ['raise', 'complete', 'raise-in-except']
-RPOE_CLASSES = ['plain', 'need', 'chained', 'pre', 'key', 'oserror', 'fnf-naming-path', 'base']
+RPOE_CLASSES = ['plain', 'need', 'chained', 'pre', 'key', 'oserror', 'fnf-naming-path', 'base', 'falsy']
 _path_counter = [0]
 
 
@@ -986,7 +1003,7 @@ def run(ctx):
         for body in bodies:
             n += 1
             for rr in (True, False):
-                for cls in (('plain', 'need', SRE_CLASSES[2 + (n + rr) % 5]) if rotate
+                for cls in (('plain', 'need', SRE_CLASSES[2 + (n + rr) % 6]) if rotate
                             else SRE_CLASSES):
                     idx += 1
                     if idx % ctx.nshards == ctx.shard:
